@@ -166,7 +166,9 @@ public:
         std::uintptr_t busy = std::uintptr_t(&busy);
         std::uintptr_t state = my_state.load(std::memory_order_acquire);
         if (state == SET && my_state.compare_exchange_strong(state, busy)) {
+            __TBB_VERIF_POINT(vp_arena_pool_state_busy, this, 0);
             if (pred()) {
+                __TBB_VERIF_POINT(vp_arena_pool_state_busy, this, 1);
                 return my_state.compare_exchange_strong(busy, UNSET);
             }
             // The result of the next operation is discarded, always false should be returned.
@@ -412,6 +414,7 @@ void arena::advertise_new_work() {
         atomic_fence_seq_cst();
     }
 
+    __TBB_VERIF_POINT(vp_arena_advertise, this, work_type);
     if (work_type == work_enqueued && my_num_slots > my_num_reserved_slots) {
         is_mandatory_needed = my_mandatory_concurrency.test_and_set();
     }
